@@ -1163,7 +1163,10 @@ impl KotoVm {
                 catch_offset,
             } => {
                 let catch_ip = self.ip() + catch_offset as u32;
-                self.frame_mut().catch_stack.push((arg_register, catch_ip));
+                let builder_counts = (self.sequence_builders.len(), self.string_builders.len());
+                self.frame_mut()
+                    .catch_stack
+                    .push((arg_register, catch_ip, builder_counts));
             }
             TryEnd => {
                 self.frame_mut().catch_stack.pop();
@@ -3734,8 +3737,13 @@ impl KotoVm {
         let previous_frame_base = self.register_base;
         let new_frame_base = previous_frame_base + frame_base as usize;
 
-        self.call_stack
-            .push(Frame::new(chunk.clone(), non_locals, new_frame_base));
+        let builder_counts = (self.sequence_builders.len(), self.string_builders.len());
+        self.call_stack.push(Frame::new(
+            chunk.clone(),
+            non_locals,
+            new_frame_base,
+            builder_counts,
+        ));
         self.register_base = new_frame_base;
         self.set_chunk_and_ip(chunk, ip);
     }
@@ -3750,6 +3758,11 @@ impl KotoVm {
         let Some(popped_frame) = self.call_stack.pop() else {
             return runtime_error!(ErrorKind::EmptyCallStack);
         };
+
+        // Discard any sequences or strings that the frame has left unfinished,
+        // e.g. after an error, or after returning from within a list or string literal.
+        self.sequence_builders.truncate(popped_frame.builder_counts.0);
+        self.string_builders.truncate(popped_frame.builder_counts.1);
 
         if self.call_stack.is_empty() {
             // The call stack is empty, so clean up by resetting the register base.
@@ -3802,8 +3815,13 @@ impl KotoVm {
 
         while let Some(frame) = self.call_stack.last() {
             match frame.catch_stack.last() {
-                Some((error_register, catch_ip)) if allow_catch => {
-                    return Ok((*error_register, *catch_ip));
+                Some(&(error_register, catch_ip, (sequence_builders, string_builders)))
+                    if allow_catch =>
+                {
+                    // Discard the sequences and strings that were being built in the try block
+                    self.sequence_builders.truncate(sequence_builders);
+                    self.string_builders.truncate(string_builders);
+                    return Ok((error_register, catch_ip));
                 }
                 _ => {
                     if frame.execution_barrier {
@@ -4107,7 +4125,10 @@ struct Frame {
     // When returning to this frame, the register that should receive the return value
     pub return_value_register: Option<u8>,
     // A stack of catch points for handling errors
-    pub catch_stack: Vec<(u8, u32)>, // catch error register, catch ip
+    // catch error register, catch ip, (sequence, string) builder counts at the start of the try
+    pub catch_stack: Vec<(u8, u32, (usize, usize))>,
+    // The number of (sequence, string) builders that were in use when the frame was entered
+    pub builder_counts: (usize, usize),
     // True if the frame should prevent execution from continuing after the frame is exited.
     // e.g.
     //   - a function is being called externally from the VM
@@ -4118,11 +4139,17 @@ struct Frame {
 }
 
 impl Frame {
-    fn new(chunk: Ptr<Chunk>, non_locals: Option<NonLocals>, register_base: usize) -> Self {
+    fn new(
+        chunk: Ptr<Chunk>,
+        non_locals: Option<NonLocals>,
+        register_base: usize,
+        builder_counts: (usize, usize),
+    ) -> Self {
         Self {
             chunk,
             non_locals,
             register_base,
+            builder_counts,
             required_registers: 0,
             return_resume_ip: 0,
             return_value_register: None,
